@@ -203,6 +203,6 @@ pub trait ProfibusPhy {
 }
 
 #[cfg(kani)]
-mod verif {
+pub(crate) mod verif {
     include!(concat!(env!("PROFIRUST_VERIF_HARNESS"), "/phy_mod.rs"));
 }
